@@ -1,0 +1,12 @@
+//go:build verif
+
+// Contracts for the verification machinery in /verif (comment-only, built only with -tags verif).
+
+package epslices
+
+// Serv: an endpoint entry counts as ready when it is ready (or has no opinion) or serving.
+//@ pred Serv(c discovery.EndpointConditions) := c.Ready == nil || *c.Ready || (c.Serving != nil && *c.Serving)
+
+//@ func EndpointCanServe
+//@   ensures result == Serv(conditions)
+//@   modifies nothing
